@@ -153,3 +153,37 @@ pub fn vmap_with<A, B, F: Fn(A) -> B>(v: Vec<A>, f: F) -> (r: Vec<B>)
     { out.push(f(x)); }
     out
 }
+
+// ---- std::collections::HashMap over key/value VIEWS ----------------------------------------------
+/// the map built by inserting the pairs of `s` from left to right (a later pair wins)
+pub open spec fn hmap_of<K, V>(s: Seq<(K, V)>) -> Map<K, V>
+    decreases s.len(),
+{
+    if s.len() == 0 { Map::<K, V>::empty() } else { hmap_of(s.drop_last()).insert(s.last().0, s.last().1) }
+}
+/// std::collections::HashMap<K, V> (std 1.9x library/std/src/collections/hash/map.rs)
+/// viewed as a finite map; the iteration order is unspecified.
+#[verifier::external_body]
+#[verifier::reject_recursive_types(K)]
+#[verifier::reject_recursive_types(V)]
+pub struct HashMap<K, V> { _p: core::marker::PhantomData<(K, V)> }
+impl<K: View, V: View> View for HashMap<K, V> {
+    type V = Map<K::V, V::V>;
+    uninterp spec fn view(&self) -> Map<K::V, V::V>;
+}
+impl<K: View, V: View> HashMap<K, V> {
+    /// capacity is a hint only
+    #[verifier::external_body]
+    pub fn with_capacity(n: usize) -> (r: HashMap<K, V>)
+        ensures r@ == Map::<K::V, V::V>::empty(),
+    { unimplemented!() }
+    #[verifier::external_body]
+    pub fn insert(&mut self, k: K, v: V) -> (old_value: Option<V>)
+        ensures final(self)@ == old(self)@.insert(k@, v@),
+    { unimplemented!() }
+}
+/// `map.into_iter().collect::<Vec<_>>()`: every entry exactly once, in an UNSPECIFIED order
+#[verifier::external_body]
+pub fn hmap_into_vec<K: View, V: View>(m: HashMap<K, V>) -> (r: Vec<(K, V)>)
+    ensures keys_distinct(pairs_view(r@)), hmap_of(pairs_view(r@)) == m@,
+{ unimplemented!() }
